@@ -1,4 +1,5 @@
-KERNELS = {'C17_pool': dict(src='kernels/C17_pool.cpp', flags=['-DNDEBUG']),
+KERNELS = {'C17_softmax': dict(src='kernels/C17_softmax.cpp', flags=['-DNDEBUG']),
+           'C17_pool': dict(src='kernels/C17_pool.cpp', flags=['-DNDEBUG']),
            'C17_conv': dict(src='kernels/C17_conv.cpp', flags=['-DNDEBUG', '-DNO_ELEMENTS']),
            'C17_shapes': dict(src='kernels/C17_shapes.cpp', flags=['-DNDEBUG']),
            'C17_conv_el': dict(src='kernels/C17_conv.cpp', flags=['-DNDEBUG', '-DELEMENTS_ONLY'])}
@@ -68,6 +69,12 @@ _BATCH = ('view::conv1d(input (2,1,2), weight (2,1,1), stride 2) is Nothing (PyT
           '(convnd.hpp:12-46) sets every leading extent to 1, i.e. drops the batch extent, so the reshape of the input fails for any batch size > 1 (conv1d and conv2d). Region: N > 1.')
 _DIL = ('view::conv2d(input (1,1,4,1), weight (1,1,3,1), stride (2,2), dilation (1,2)) is Nothing (PyTorch: shape (1,1,1,1)): conv_window_axis is (-1,-2) while conv_expand_spacing keeps the '
         'order of the dilation pair, so dilation[0] is applied to the width and dilation[1] to the height (kernel_size is reversed consistently, dilation is not). Region: dilation[0] != dilation[1].')
+def _sm(sh0, sh1, axis, mn=0, **kw):
+    c = {'SH0': sh0, 'SH1': sh1, 'AXIS': axis, 'MIN': mn, 'LL_UF_FLOAT': 1, '_unwindset': ['k_fill_f32.0:11', 'h_softmax_el.0:11']}; c.update(kw); return c
+HARNESSES += [dict(name='softmax_el', src='harnesses/C17_softmax.c', func='h_softmax_el', kernels=['C17_softmax'], unwind=6, backend='kissat', timeout=900, mem_gb=8, gate=False,
+    bounds='STRUCTURAL element check of view::softmax / softmin (MIN=1): shape (SH0,SH1) and AXIS are per-query constants; integer-valued float data in [-200,200] (all-negative slices included) and the index symbolic; '
+           'IEEE + - / and expf are uninterpreted symbols shared by the translated nmtools code and the reference (LL_UF_FLOAT): decided is that the slice maximum is subtracted before exp, which elements enter the sum, in which order, and the final division',
+    quick=[], thorough=[_sm(1, 3, -1, _timeout=1800), _sm(2, 2, 0, _timeout=1800), _sm(2, 2, 1, _timeout=1800), _sm(3, 1, 0, _timeout=1800), _sm(1, 3, 1, mn=1, _timeout=1800), _sm(2, 2, 0, mn=1, _timeout=1800)])]   # measured: 395 s (1,3) and 740 s (2,2) at 6.3 GB on the loaded machine
 PENDING_FINDINGS = [
  dict(id='C17-conv-batch', harness='conv1d_shape_nopad', exclude_define='KF_C17_CONV_BATCH', witness_config={}, witness_inputs=_W(2, 1, 2, 2, 1, 2, 0, 1), what=_BATCH),
  dict(id='C17-conv-batch', harness='conv1d_shape', exclude_define='KF_C17_CONV_BATCH', witness_config={}, witness_inputs=_W(2, 1, 2, 2, 1, 2, 0, 1), what='same inputs through the kernel with padding (padding 0)'),
